@@ -334,7 +334,7 @@ theorem encLeaf_decode (t : Table) (s k b : Nat) (h : node t s = encLeaf k b) (h
 theorem fromFrequencies_wellFormed (f : List Nat) (t : Table) (h : fromFrequencies f = .ok t) :
     WellFormed t := by
   have hinner := fromFrequencies_inner f t h
-  obtain ⟨T, hT1, hT2, hT3, hdfs, _⟩ := fromFrequencies_ok f t h
+  obtain ⟨T, hT1, hT2, hT3, hdfs, _, _⟩ := fromFrequencies_ok f t h
   · -- the traversal
     have e4096 : (4096 : Nat) = 4095 + 1 := rfl
     rw [e4096, dfs_first] at hdfs
